@@ -540,26 +540,6 @@ func runC16(c *core.Ctx) error {
 		inlined := err == nil && termOf(res) != g.Root.Term()
 		c.KnownWitness("C16/walk-transform-inlines-linked-blocks", inlined, "identity WalkTransforming of {l: <link>} returns "+termOfOrErr(res, err))
 	}
-	{
-		root, _ := core.BuildBasic(core.Map(), nil)
-		var res datamodel.Node
-		var err error
-		func() {
-			defer func() {
-				if r := recover(); r != nil {
-					err = fmt.Errorf("panic %v", r)
-				}
-			}()
-			res, err = traversal.FocusedTransform(root, mkPath([]string{"a", "b"}), func(traversal.Progress, datamodel.Node) (datamodel.Node, error) { return nil, nil }, true)
-		}()
-		bad := err != nil && strings.HasPrefix(err.Error(), "panic")
-		if err == nil {
-			if _, rerr := readNodeSafe(res); rerr != nil {
-				bad = true
-			}
-		}
-		c.KnownWitness("C16/nil-replacement-for-missing-position-leaves-nil-node", bad, "FocusedTransform({}, a/b, fn→nil, createParents) → "+termOfOrErrSafe(res, err))
-	}
 	var lines, impls []string
 	n := c.Pick(1500, 100000)
 	for i := 0; i < n; i++ {
@@ -575,12 +555,6 @@ func runC16(c *core.Ctx) error {
 		c.Trace(1)
 		if i < 2 {
 			c.Sample(map[string]string{"case": truncateStr(lines[i], 500), "impl": truncateStr(impls[i], 200)})
-		}
-		if outs[i] == "nil" && (impls[i] == "nil" || impls[i] == "panic") {
-			// the model says the code leaves a nil node in the result: a nil replacement for a position that does not exist
-			c.Fail("C16/nil-replacement-for-missing-position-leaves-nil-node", core.Replay{Kind: "oracle", Case: lines[i], Impl: impls[i], Expected: "the tree unchanged (or an error)",
-				Detail: "FocusedTransform hands the nil replacement for a missing target below created parents to an assembler"})
-			continue
 		}
 		if outs[i] != impls[i] {
 			c.Fail("C16/corr-focused-transform", core.Replay{Kind: "correspondence", Case: lines[i], Impl: impls[i], Model: outs[i]})
